@@ -8,6 +8,7 @@ parallel; every process is classified as
   report    a sanitizer / Miri report  -> violation with a stable signature
             (tool:kind:first in-repo frame pair), or monitor violations in the SUMMARY line
   timeout   killed after --timeout seconds            -> inconclusive
+  inconclusive  the binary itself said so (watchdog fired while a thread was still running)
   error     anything else (tool / harness failure)    -> inconclusive
 
 and one merged `SUMMARY {json}` line (property C17) is printed on stdout. Everything else goes
@@ -443,6 +444,9 @@ def run_one(job):
                 tool, scenario, seed, code, err[-300:].replace("\n", " | "))
     if summary and summary.get("violations") and res["status"] == "clean":
         res["status"] = "report"
+    if summary and summary.get("inconclusive") and res["status"] == "clean":
+        # e.g. the in-process watchdog fired while a thread was still running (slow machine)
+        res["status"] = "inconclusive"
     return res
 
 
